@@ -260,13 +260,57 @@ def _drop_trailing_continue(body):
 
 
 class _Norm(ast.NodeTransformer):
-    def __init__(self, counts):
+    module_sigs = {}
+
+    def __init__(self, counts, module_sigs=None):
         self.counts = counts     # name -> (stores, loads) in the enclosing outermost function
+        if module_sigs is not None:
+            self.module_sigs = module_sigs
+
+    # N13: inside an error message (raise X(...), elf_assert/dwarf_assert(c, msg)) every way of formatting is the same opaque
+    # thing over the same operands.  Formatting that computes *data* (opcode names built with '%d' % n) is left alone.
+    def _msg(self, e):
+        class M(ast.NodeTransformer):
+            def visit_JoinedStr(s, n):
+                s.generic_visit(n)
+                args = [v.value for v in n.values if isinstance(v, ast.FormattedValue)]
+                return ast.copy_location(ast.Call(func=ast.Name(id='__fmt__', ctx=ast.Load()), args=args, keywords=[]), n)
+
+            def visit_BinOp(s, n):
+                s.generic_visit(n)
+                if isinstance(n.op, ast.Mod) and isinstance(n.left, ast.Constant) and isinstance(n.left.value, str):
+                    args = list(n.right.elts) if isinstance(n.right, ast.Tuple) else [n.right]
+                    return ast.copy_location(ast.Call(func=ast.Name(id='__fmt__', ctx=ast.Load()), args=args, keywords=[]), n)
+                return n
+
+            def visit_Call(s, n):
+                s.generic_visit(n)
+                if isinstance(n.func, ast.Attribute) and n.func.attr == 'format' and isinstance(n.func.value, ast.Constant) and isinstance(n.func.value.value, str):
+                    return ast.copy_location(ast.Call(func=ast.Name(id='__fmt__', ctx=ast.Load()), args=list(n.args) + [k.value for k in n.keywords], keywords=[]), n)
+                return n
+
+            def visit_Constant(s, n):
+                if isinstance(n.value, str) and ' ' in n.value:
+                    return ast.copy_location(ast.Call(func=ast.Name(id='__fmt__', ctx=ast.Load()), args=[], keywords=[]), n)
+                return n
+        return M().visit(e)
+
+    def visit_Raise(self, n):
+        self.generic_visit(n)
+        if n.exc is not None and isinstance(n.exc, ast.Call):
+            n.exc.args = [self._msg(a) for a in n.exc.args]
+        return n
 
     def visit_Call(self, n):
         self.generic_visit(n)
-        if isinstance(n.func, ast.Name) and n.func.id in KNOWN_SIGS and n.keywords and not any(isinstance(a, ast.Starred) for a in n.args):
-            sig = KNOWN_SIGS[n.func.id]
+        if isinstance(n.func, ast.Name) and n.func.id in ('elf_assert', 'dwarf_assert') and len(n.args) > 1:
+            n.args[1] = self._msg(n.args[1])
+        sigs = dict(KNOWN_SIGS)
+        sigs.update(self.module_sigs)
+        fname = n.func.id if isinstance(n.func, ast.Name) else (n.func.attr if isinstance(n.func, ast.Attribute) and isinstance(n.func.value, ast.Name) and
+                                                                 n.func.value.id == 'self' else None)
+        if fname in sigs and n.keywords and not any(isinstance(a, ast.Starred) for a in n.args):
+            sig = sigs[fname]
             kws = dict((k.arg, k) for k in n.keywords if k.arg)
             while len(n.args) < len(sig) and sig[len(n.args)] in kws:
                 k = kws.pop(sig[len(n.args)])
@@ -393,15 +437,31 @@ class _Norm(ast.NodeTransformer):
         return node
 
 
+def _module_sigs(tree):
+    """bare name -> positional parameter names (without self) for the functions and methods this module defines exactly once"""
+    seen = {}
+    for qual, fn in outer_functions(tree):
+        a = fn.args
+        if a.vararg or a.kwarg or a.kwonlyargs or a.posonlyargs:
+            seen.setdefault(fn.name, []).append(None)
+            continue
+        ps = [x.arg for x in a.args]
+        if '.' in qual and ps and ps[0] in ('self', 'cls') and not any(ast.unparse(d) == 'staticmethod' for d in fn.decorator_list):
+            ps = ps[1:]
+        seen.setdefault(fn.name, []).append(ps)
+    return dict((k, v[0]) for k, v in seen.items() if len(v) == 1 and v[0] is not None and not (k.startswith('__') and k.endswith('__')))
+
+
 def normalise(tree):
     """Apply N1-N5 to every outermost function of the module (module/class level statements are left alone)."""
+    msigs = _module_sigs(tree)
     for qual, fn in outer_functions(tree):
         counts = {}
         for n in ast.walk(fn):
             if isinstance(n, ast.Name):
                 s, l = counts.get(n.id, (0, 0))
                 counts[n.id] = (s + 1, l) if isinstance(n.ctx, (ast.Store, ast.Del)) else (s, l + 1)
-        nv = _Norm(counts)
+        nv = _Norm(counts, msigs)
         fn.body = [nv.visit(st) for st in fn.body]
         fn.body = nv._block(fn.body)
     ast.fix_missing_locations(tree)
